@@ -8,6 +8,7 @@ PID = "C09"
 LEVEL = "other"
 CRATES = ["rlib_io"]
 RELEASE = True
+DEPENDS = ["C08"]   # the property's read/write clauses run through these packs' code (rules reported as <PID>.<rule>)
 RELEASE_ALWAYS = True
 ARMED = True
 ENGINES = ["E1", "E3", "E4b", "E10"]
@@ -108,7 +109,7 @@ def check(col, prog, tier, profile, fixture=None):
     helpers = util.private_helpers(crate, "Writer", exclude=[wb, fl, wr, wc])
     A = util.analyser(helpers)
     col.rule("V1" + sfx, "reserve(len) -> copy into buf[end..end+len] -> end += len; reserve flushes iff end+size > capacity; callers pass bounded slices", floor=8)
-    col.rule("V2" + sfx, "flush: early return iff end == 0; write_all(&buf[..end]) then end = 0; sink only via write_all in flush", floor=3)
+    col.rule("V2" + sfx, "flush: early return iff end == 0; write_all(&buf[..end]) then end = 0; sink only via write_all in flush", floor=2)   # (the early return for an empty buffer is optional: write_all of an empty slice does nothing)
     col.rule("V3" + sfx, "Drop flushes", floor=1)
     col.rule("V4" + sfx, "flush-per-write in the dev profile, not in release", floor=2)
     col.rule("V5" + sfx, "end stored only by new / write_bytes / flush", floor=1)
@@ -603,14 +604,18 @@ def _single_byte_append(b, inl, BUF, END, cap):
         sb = evs[bs[0]]
         idx = sb.place[2]
         cur_end = I.load(sb.state[1], ("field", selfp, END))
-        facts = set(sb.state[0]) | {("eq", ("bin", "Le", end0, mk_int(cap)), 1)}
+        # what the path knows about the room, not counting the store's own bounds check (whose success edge would make any
+        # index "in range": a failed check is a panic in the middle of the output)
+        checks = {("eq", e.val, 1) for e in evs[: bs[0]] if e.kind == "assert" and isinstance(e.extra, dict) and e.extra.get("k") == "bounds"}
+        facts = (set(sb.state[0]) - checks) | {("eq", ("bin", "Le", end0, mk_int(cap)), 1)}
         z = zones.zone_of(frozenset(facts), I.tys)
         if not (idx == cur_end or z.entails("Eq", idx, cur_end)):
             return "the byte is not stored at the current fill level"
         if not z.entails("Le", ("bin", "Add", idx, mk_int(1)), mk_int(cap)):
             return "end + 1 <= capacity is not entailed at the store"
         later = [k for k in adv if k > bs[0]]
-        if len(later) != 1 or not util.lin_equal(evs[later[0]].val, ("bin", "Add", idx, mk_int(1))):
+        # (the dev profile flushes after every write: a reset to 0 may follow the advance)
+        if not later or not util.lin_equal(evs[later[0]].val, ("bin", "Add", idx, mk_int(1))) or any(evs[k].val != mk_int(0) for k in later[1:]):
             return "end is not advanced by exactly one after the store"
         if [k for k in adv if k < bs[0] and evs[k].val != mk_int(0)]:
             return "end changes before the store other than by a flush"
